@@ -12,7 +12,10 @@ use serde_json::{json, Value};
 use std::collections::BTreeMap;
 
 pub fn prepare(seed: u64, tier: &str, tag: &str, pairs: usize, per_type: usize, dir: &std::path::Path) -> (Vec<RemoteDesc>, CxxBuilt, usize) {
-    let (descs, mut dropped) = crate::c13::draw(seed, tier, &Profile::cxx(), tag, pairs);
+    let (mut descs, mut dropped) = crate::c13::draw(seed, tier, &Profile::cxx(), tag, pairs);
+    if tag == "C14" {
+        crate::rustharness::append_corpus(&mut descs, "cxx");
+    }
     let mut headers = BTreeMap::new();
     let mut baked: BTreeMap<usize, BTreeMap<String, Vec<Value>>> = BTreeMap::new();
     for rd in &descs {
